@@ -652,7 +652,23 @@ func (x *Exec) evalSlice(e *ast.SliceExpr, env *Env) Term {
 	x.safetyCheck(env, "slice", types.ExprString(e), And(Cmp("<=", IntLit(0), lo), Cmp("<=", lo, hi), Cmp("<=", hi, x.W.SeqLen(base))))
 	r := x.W.MkSeq(base.Sort, x.W.SeqBase(base), Arith("+", x.W.SeqOff(base), lo), Arith("-", hi, lo))
 	r.GoT = info.TypeOf(e)
-	return r
+	return x.sliceFacts(r, base, lo)
+}
+
+// sliceFacts names a slice value and relates its elements to those of the sliced sequence at the level of
+// element access: at(S,k) == at(X, lo+k) (true by definition of the encoding; stated for E-matching).
+func (x *Exec) sliceFacts(r, base, lo Term) Term {
+	if x.termMode || x.noFacts > 0 {
+		return r
+	}
+	c := x.W.Fresh("slc", r.Sort)
+	c.GoT = r.GoT
+	x.W.Facts = append(x.W.Facts, Eq(c, r).S)
+	x.W.nfresh++
+	q := fmt.Sprintf("q!%d", x.W.nfresh)
+	qi := T(q, SInt)
+	x.W.Facts = append(x.W.Facts, fmt.Sprintf("(forall ((%s Int)) (! (= %s %s) :pattern (%s)))", q, x.W.SeqAt(c, qi).S, x.W.SeqAt(base, Arith("+", lo, qi)).S, x.W.SeqAt(c, qi).S))
+	return c
 }
 
 func (x *Exec) evalCompositeLit(e *ast.CompositeLit, env *Env) Term {
